@@ -419,11 +419,27 @@ class InterpBase:
             return T("builtin", r[1])
         self.unsupported(f"name kind {r}", e)
 
+    def _elts(self, elts, env, mod, fn):
+        """elements of a tuple/list display; *x is expanded when x is a constant string of octets or a literal sequence"""
+        out = []
+        for x in elts:
+            if isinstance(x, ast.Starred):
+                v = self.ev(x.value, env, mod, fn)
+                if v.k == "const" and isinstance(v.a[0], (bytes, bytearray)):
+                    out += [C(b) for b in v.a[0]]
+                elif v.k in ("tuple", "list"):
+                    out += list(v.a[0])
+                else:
+                    self.unsupported("starred element of a non-literal sequence", x)
+            else:
+                out.append(self.ev(x, env, mod, fn))
+        return tuple(out)
+
     def ev_Tuple(self, e, env, mod, fn):
-        return T("tuple", tuple(self.ev(x, env, mod, fn) for x in e.elts))
+        return T("tuple", self._elts(e.elts, env, mod, fn))
 
     def ev_List(self, e, env, mod, fn):
-        return T("list", tuple(self.ev(x, env, mod, fn) for x in e.elts), ty=("list", None))
+        return T("list", self._elts(e.elts, env, mod, fn), ty=("list", None))
 
     def ev_IfExp(self, e, env, mod, fn):
         c = truthy(self.ev(e.test, env, mod, fn))
